@@ -585,18 +585,37 @@ def h_species(ctx, kind, order=(0, 1, 2)):
 
 # ------------------------------------------------------------------------------------ phase histories
 def h_phase_history(ctx, ops):
-    """two coexisting interfaces populated by a sequence of list operations stay independent"""
+    """two coexisting interfaces - one populated at construction, one empty - edited by a sequence of list operations stay
+    independent and keep listing exactly their species and elements; run twice: with the element list looked at after
+    every operation, and with it looked at only before the first and after the last operation"""
+    for read_each in (True, False):
+        _phase_history(ctx, ops, read_each)
+
+
+def _phase_history(ctx, ops, read_each):
     from pmutt.omkm.phase import InteractingInterface
+    from pmutt.omkm.units import Units
+    COMPOSITION = [{'H': 1}, {'C': 1, 'H': 1}, {'O': 1}, {'N': 1, 'O': 1}]
 
     class S:
-        def __init__(self, n):
-            self.name = n
-            self.elements = {n[0]: 1}
+        def __init__(self, i):
+            self.name = 'A%d' % i
+            self.elements = dict(COMPOSITION[i])
             self.phase = None
-    pool = [S('A%d' % i) for i in range(4)]
-    ph = [InteractingInterface(name='p0', site_density=1e-9), InteractingInterface(name='p1', site_density=1e-9)]
-    model = [[], []]
-    seen = [set(), set()]
+    pool = [S(i) for i in range(4)]
+
+    def elems(mdl):
+        out = set()
+        for s_ in mdl:
+            out |= set(s_.elements)
+        return out
+    ph = [InteractingInterface(name='p0', site_density=1e-9, species=[pool[3]]), InteractingInterface(name='p1', site_density=1e-9)]
+    model = [[pool[3]], []]
+    seen = [{3}, set()]
+    stale = []
+    for w2 in (0, 1):           # both phases are looked at once before anything is edited (e.g. a file was written)
+        if set(ph[w2].elements) != elems(model[w2]):
+            stale.append(w2)
     for (w, op, arg) in ops:
         if op in ('append', 'extend'):
             seen[w].update([arg] if op == 'append' else [arg, (arg + 1) % 4])
@@ -613,17 +632,22 @@ def h_phase_history(ctx, ops):
                 p.pop_species(0); mdl.pop(0)
         elif op == 'clear':
             p.clear_species(); mdl.clear()
-    from pmutt.omkm.units import Units
-    hist = ' after ' + '; '.join('p%d.%s(%s)' % (w, op, 'A%d' % a if op != 'pop' and op != 'clear' else '') for w, op, a in ops)
+        if read_each:
+            for w2 in (0, 1):
+                if set(ph[w2].elements) != elems(model[w2]):
+                    stale.append(w2)
+    how = 'elements read after every operation' if read_each else 'elements read before and after the edits only'
+    hist = ' [%s] after ' % how + '; '.join('p%d.%s(%s)' % (w, op, 'A%d' % a if op != 'pop' and op != 'clear' else '') for w, op, a in ops)
 
     def chk(label, ok):
         ctx.true(label if ok else label + hist, ok)
     for w in (0, 1):
         chk('phase %d lists exactly its own species in order' % w, list(ph[w].species) == model[w])
-        chk('phase %d elements are those of its species' % w, set(ph[w].elements) == {list(s.elements)[0] for s in model[w]})
+        chk('phase %d elements are those of its species' % w, set(ph[w].elements) == elems(model[w]))
+        chk('phase %d elements were those of its species whenever they were looked at' % w, w not in stale)
         y = ph[w].to_omkm_yaml(units=Units())
         chk('phase %d YAML lists exactly its species and elements' % w, y['species'] == [s.name for s in model[w]]
-            and sorted(y['elements']) == sorted({list(s.elements)[0] for s in model[w]}))
+            and sorted(y['elements']) == sorted(elems(model[w])))
         chk('phase %d: every species only ever added there points back to it' % w,
             all(s.phase is ph[w] for s in ph[w].species if pool.index(s) not in seen[1 - w]))
 
